@@ -260,6 +260,28 @@ struct Run : ContBase {
         if (!present && e != ENOENT) c.fail(FUNC, "hasharr:remove-errno", "remove of absent key: errno=%d, expected ENOENT", e);
         if (present) { m.erase(k); removed_any++; if (promote) nt_space++; }
     }
+    // calls the library documents as refused (EINVAL): they must fail, say so, and leave the image alone
+    void do_refused(const std::string &k) {
+        int kind = (int)s.range(0, 7);
+        Buf kb(k); std::string v = gen_val(false, 20); Buf vb(v);
+        std::string before((const char *)reg.mem(), reg.size);
+        errno = poison; bool ok; const char *what;
+        switch (kind) {
+            case 0: ok = qhasharr_put_by_obj(t, nullptr, kb.n, vb.p, vb.n); what = "put_by_obj(NULL name)"; break;
+            case 1: ok = qhasharr_put_by_obj(t, kb.p, 0, vb.p, vb.n); what = "put_by_obj(name size 0)"; break;
+            case 2: ok = qhasharr_put_by_obj(t, kb.p, kb.n, nullptr, vb.n); what = "put_by_obj(NULL data)"; break;
+            case 3: ok = qhasharr_put_by_obj(t, kb.p, kb.n, vb.p, 0); what = "put_by_obj(data size 0)"; break;
+            case 4: { size_t sz = 0; ok = qhasharr_get_by_obj(t, kb.p, 0, &sz) != nullptr; what = "get_by_obj(name size 0)"; break; }
+            case 5: ok = qhasharr_remove_by_obj(t, (const char *)kb.p, 0); what = "remove_by_obj(name size 0)"; break;
+            case 6: ok = qhasharr_remove_by_idx(t, -1 - (int)s.range(0, 3)); what = "remove_by_idx(negative)"; break;
+            default: { int idx = 0; ok = qhasharr_getnext(t, nullptr, &idx); what = "getnext(NULL obj)"; }
+        }
+        int e = errno;
+        c.op("refused call %s, key %s [%s]", what, hexs(k, 10).c_str(), m.count(k) ? "present" : "absent");
+        if (ok) c.fail(FUNC, "hasharr:invalid-accepted", "%s succeeded, documented EINVAL", what);
+        if (e != EINVAL) c.fail(FUNC, "hasharr:invalid-errno", "%s: errno=%d, documented EINVAL", what, e);
+        if (memcmp(before.data(), reg.mem(), reg.size) != 0) c.fail(FUNC | IMAGE, "hasharr:invalid-modified", "%s modified the table memory", what);
+    }
     void do_remove_idx() {
         int idx = (int)s.range(0, cap - 1);
         qhasharr_slot_t *sl = slots(t);
@@ -278,11 +300,17 @@ struct Run : ContBase {
         }
         bool promote = cnt > 1;
         bool ok = false, ok2 = false; int e = 0;
+        std::string before((const char *)reg.mem(), reg.size);
         for (int rep = 0; rep < (twin ? 2 : 1); rep++) { errno = poison; bool r = qhasharr_remove_by_idx(rep ? twin : t, idx); if (rep) ok2 = r; else { ok = r; e = errno; } }
         c.op("remove_by_idx(%d) [%s]", idx, found ? hexs(target, 10).c_str() : cnt == 0 ? "empty slot" : "extension block");
         seei(ok);
         if (twin && ok != ok2) c.fail(IMAGE, "hasharr:image-not-deterministic", "remove_by_idx succeeded at one address and failed at the other");
         if (ok != found) c.fail(FUNC, "hasharr:remove-idx-result", "remove_by_idx(%d) returned %d, slot %s (errno=%d)", idx, (int)ok, found ? "holds a key" : "holds no key", e);
+        if (!found) {
+            // documented: ENOENT "index is not pointing a valid object"; and a refused call changes nothing
+            if (e != ENOENT) c.fail(FUNC, "hasharr:remove-idx-errno", "remove_by_idx(%d) on %s: errno=%d, documented ENOENT", idx, cnt == 0 ? "an empty slot" : "an extension block", e);
+            if (memcmp(before.data(), reg.mem(), reg.size) != 0) c.fail(FUNC, "hasharr:remove-idx-modified", "refused remove_by_idx(%d) on %s modified the table memory", idx, cnt == 0 ? "an empty slot" : "an extension block");
+        }
         if (found) { m.erase(target); removed_any++; if (promote) nt_space++; }
     }
     void second_handle() {
@@ -342,7 +370,7 @@ struct Run : ContBase {
         c.op("hasharr(capacity=%d, %s names, universe=%zu, region %s at offset %zu)", cap, strapi ? "string" : "binary", U, guard ? "inside canaries" : "exact-size block", off);
         int maxops = c.tier ? 1500 : 300, ops = 0;
         while (!s.exhausted() && ops++ < maxops) {
-            int o = (int)s.pick({34, 10, 18, 6, 1, 4, 1, m7 ? 8 : 0});
+            int o = (int)s.pick({34, 10, 18, 6, 1, 4, 1, m7 ? 8 : 2, 2});
             const char *what = "op";
             const std::string &uk = universe[s.range(0, (long)U - 1)];
             switch (o) {
@@ -353,6 +381,7 @@ struct Run : ContBase {
                 case 4: qhasharr_clear(t); if (twin) qhasharr_clear(twin); c.op("clear()"); note_outlived(); m.clear(); verify_kept(false); what = "clear"; break;
                 case 5: c.op("walk + get all"); observe(t, FUNC, "walk"); what = "walk"; break;
                 case 6: { if (!devnull) devnull = fopen("/dev/null", "w"); bool ok = qhasharr_debug(t, devnull); c.op("debug()"); if (!ok) c.fail(FUNC, "hasharr:debug", "debug() returned false"); what = "debug"; break; }
+                case 8: do_refused(uk); what = "refused call"; break;
                 default: second_handle(); what = "second handle";
             }
             after_op(what);
